@@ -1263,7 +1263,9 @@ def run_tol_edges(case):
     ex, ey = abs(m[2] - round(m[2])), abs(m[5] - round(m[5]))
     big, Tf = max(ex, ey), Fr(T)
     if T == 0.0:
-        expect = "reject" if big > 0 else "either"
+        # tol=0 given explicitly is not "tol not given": a real offset (5e-9 px, 1e-3 px) must be rejected; float noise of a
+        # non-dyadic grid (1e-16 px) need not
+        expect = "reject" if big >= Fr(1, 10**9) else "either"
     elif big <= Tf * (1 - BAND):
         expect = "accept"
     elif big >= Tf * (1 + BAND):
@@ -1528,7 +1530,7 @@ def _snapshot(g):
 
 
 HIST_OPS = ("a|b", "b|a", "a&b", "b&a", "a.overlap_roi(b)", "b.overlap_roi(a)", "a.snap_to(b)", "a.enclosing(b.extent)",
-            "union([a,b,a])", "intersection([b,a])")
+            "union([a,b,a])", "intersection([b,a])", "a.snap_to(b moved by 1/4,-1/2 px)", "b.snap_to(a moved by -1/4,1/4 px)")
 
 
 def _hist_op(name, a, b):
@@ -1538,6 +1540,9 @@ def _hist_op(name, a, b):
         "a.snap_to(b)": lambda: a.snap_to(b), "a.enclosing(b.extent)": lambda: a.enclosing(b.extent),
         "union([a,b,a])": lambda: geobox_union_conservative([a, b, a]),
         "intersection([b,a])": lambda: geobox_intersection_conservative([b, a]),
+        # snapping that really moves the GeoBox: the result must not keep anything computed for the original
+        "a.snap_to(b moved by 1/4,-1/2 px)": lambda: a.snap_to(GeoBox(tuple(b.shape), b.affine * Affine.translation(0.25, -0.5), b.crs)),
+        "b.snap_to(a moved by -1/4,1/4 px)": lambda: b.snap_to(GeoBox(tuple(a.shape), a.affine * Affine.translation(-0.25, 0.25), a.crs)),
     }[name]
 
 
@@ -2091,7 +2096,7 @@ def main(ctx):
         "(129 points per edge, refined 3x around each extreme) through a fresh pyproj transformer",
         "alignment tolerance: the documented default tol=1e-8 px of bounding_box_in_pixel_domain / overlap_roi is the contract: "
         "offsets <= 0.9995 tol must be accepted, >= 1.0005 tol rejected (exact residue from the float affines, bases with "
-        "origins within 100 px of 0 so that float evaluation is 1000x finer than the band); tol=0 must reject any non-zero offset",
+        "origins within 100 px of 0 so that float evaluation is 1000x finer than the band); tol=0 given explicitly must reject offsets >= 1e-9 px",
         "long rasters: a grid whose corners lie half a pixel or more off the other raster's pixel lattice is not 'related by a "
         "whole-pixel shift' and must be rejected, whatever per-pixel tolerance the linear part passes",
         "histories: answers are compared with the same call on fresh objects (exact for the same float inputs; as grid locations "
